@@ -86,8 +86,8 @@ namespace nmtools::view
             }();
 
             auto inner_loop = [&](const auto& slices){
-                auto a_1d = apply_slice(b_array,*slices);
-                auto indices_1d = apply_slice(b_indices,*slices);
+                auto a_1d = view::apply_slice(b_array,*slices);
+                auto indices_1d = view::apply_slice(b_indices,*slices);
                 auto out_1d = apply_mutable_slice(output,*slices);
 
                 auto flat_a = unwrap(flatten(a_1d));
